@@ -141,15 +141,16 @@ theorem C17_counters (ver : Int) (flags : Nat) (ls : List SLbl) (s : SS)
 
 /-- **Segmentation independence** of the negotiation: however the bytes of a composed
     exact-size read (greeting, method list, request, rest of a host name) are cut into read
-    completions, the handler is called on the same connection state with the same byte count
-    as for one completion carrying all of them; it is called exactly when the region is full. -/
-theorem C17_segmentation_independent (c : Conn) (off need got : Nat) (chunks : List Bytes)
+    completions (at least one: `chunks ≠ []`), the handler is called on the same connection
+    state with the same byte count as for one completion carrying all of them; it is called
+    exactly when the region is full. -/
+theorem C17_segmentation_independent (c : Conn) (off need got : Nat) (chunks : List Bytes) (hne : chunks ≠ [])
     (h : off + got + chunks.flatten.length ≤ c.outBuf.cap) :
     feedExact c off need got chunks
       = (match exactStep c off need got .ok chunks.flatten with
          | .error e => .error e
          | .ok (c', total, _) => .ok (c', total)) :=
-  exact_fusion c off need got chunks h
+  exact_fusion c off need got chunks hne h
 
 theorem C17_read_ends_when_full (c : Conn) (off need got : Nat) (d : Bytes) (c' : Conn) (total : Nat) (done : Bool)
     (h : exactStep c off need got .ok d = .ok (c', total, done)) :
